@@ -148,9 +148,13 @@ def handle (st : St) (ws : List String) : St × String :=
     match i.toNat? with
     | some i => if i < st.w.vals.length then
         let n := st.w.vals.length
-        let vs := (List.range n).map (fun j => if specIs st.cmds i j then 't' else 'f')
+        -- `specIs` / `specIsForeign` with the two folds over the history hoisted out of the loops
+        let os := specOrigins st.cmds
+        let srcs := specSources st.cmds i
+        let oi := os[i]?.getD 0
+        let vs := (List.range n).map (fun j => if oi == os[j]?.getD 0 then 't' else 'f')
         let fs := st.fvals.map (fun e =>
-          if isComparable e then (if specIsForeign st.cmds i e then 't' else 'f') else '-')
+          if isComparable e then (if srcs.any (fun s => sameForeign s e) then 't' else 'f') else '-')
         (st, String.ofList (vs ++ fs ++ ['f']))
       else (st, "bad-op")
     | none => (st, "bad-op")
